@@ -443,7 +443,23 @@ func marshalCommands(cmds []database.Command) ([]byte, error) {
 
 func eScenario(r *rand.Rand) ([]database.Command, string, eOpts) {
 	o := eOpts{}
-	switch r.Intn(4) {
+	switch r.Intn(5) {
+	case 4:
+		// more matches than any fixed window or cap: 55-70 commands that all contain the query word, at a limit above
+		// the database size, with and without enhancement (paired runs)
+		w := ePlain[r.Intn(12)]
+		var cmds []database.Command
+		n := 55 + r.Intn(16)
+		for i := 0; i < n; i++ {
+			c := eGenCommand(r)
+			c.Description = w + " " + c.Description
+			c.Platform = nil
+			cmds = append(cmds, c)
+		}
+		o.Limit = n + 3
+		o.NLP = r.Intn(2) == 0
+		o.AllPlatforms = true
+		return cmds, []string{w, w + " " + eActions[r.Intn(len(eActions))]}[r.Intn(2)], o
 	case 3:
 		// a long query (more than ten content words) whose first words are very common in the database: the cap on
 		// query terms must still keep the first four
